@@ -36,12 +36,12 @@ CLAIMS = {
             "PARTIAL proof. Proved: clocks and ep squares round-trip through printer and parser (both arithmetic modes). Board rows, castling letters "
             "and whole strings: correspondence run on positions reached by play (incl. inner castling rooks) and on canonical strings.",
             "DESIGN.md section 6 C06", ""),
-    "C08": ("proof", "Coq proofs: square attack query = Rules.attacked on the abstract board for both sides and both frames (exhaustive one-square leaper tables lifted by linearity, first-blocker lemma for the slider walks, mirror symmetry of the rules); popcount = enumeration length, slider counts, perft recursion, capture list = filter; + differential vs the rules (counts, captures, attack queries, perft)",
+    "C08": ("proof", "Coq proofs: square attack query = Rules.attacked on the abstract board for both sides and both frames (exhaustive one-square leaper tables lifted by linearity, first-blocker lemma for the slider walks, mirror symmetry of the rules); count_moves = length(legal_moves) for every position (block-by-block, promotion targets split by rank), popcount = enumeration length, perft recursion, capture list = filter; + differential vs the rules (counts, captures, attack queries, perft)",
             "PARTIAL proof. Proved: is_sq_attacked p sq side = the rules' attack relation on abs_state's board, for either side as attacker and either "
             "colour to move, under the executable test attack_pre_b (boards below 2^64, one man at most per square, one king a side), which is "
             "evaluated (true) on every position the run uses; the arithmetic link between counts and lists, perft's recursion with the bulk counter, "
-            "captures = filtered generation in order. count = length for the pawn/king/castling blocks, is_capture and the set-valued attack "
-            "queries vs the rules: correspondence run.", "DESIGN.md section 6 C08", ""),
+            "captures = filtered generation in order; count_moves p = length (legal_moves p) for every position with no hypothesis (hence perft 1 = "
+            "number of generated moves). is_capture and the set-valued attack queries vs the rules: correspondence run.", "DESIGN.md section 6 C08", ""),
     "C09": ("proof", "Coq proof of shape, square-name injectivity and injectivity of the Chess960 notation + differential on all legal moves incl. parser round trip",
             "PARTIAL proof. Proved: string shape, square names injective, Chess960-mode strings determine the move. Standard-mode injectivity on standard "
             "geometry and the parser round trip: correspondence run.", "DESIGN.md section 6 C09", ""),
